@@ -97,7 +97,7 @@ def resolve(E, rank, hist, op):
         for i in range(N):
             v[i * 4 + 2] = v[i * 4 + 1]
     if E.sym:
-        E.ctx.feas_timeout = 3000
+        E.ctx.feas_timeout = 10000
     P.cost(x0)
     for h in hist:
         if h.startswith('flip:'):
